@@ -10,7 +10,7 @@ rm -rf "$C"; mkdir -p "$C"; (cd /repo && git archive HEAD) | tar -x -C "$C"
 (cd "$C" && git init -q && git add -A >/dev/null 2>&1 && git -c user.email=x@x -c user.name=x commit -qm base >/dev/null)
 for d in seeded/micro-refactors/m11_*.diff seeded/micro-refactors/m5*_lifecycle_*.diff notes/EXT_lifecycle_edits/*.diff; do
   git -C "$C" checkout -q -- .; git -C "$C" apply "$(pwd)/$d" || { echo "$d: does not apply"; continue; }
-  /venv/bin/python tools/extract.py --repo "$C" --out lean/AioMySensors/Generated/Tables.lean --json /dev/null >/dev/null 2>&1
+  /venv/bin/python tools/extract.py --repo "$C" --out lean/AioMySensors/Generated/Tables.lean --json "${TMPDIR:-/tmp}/eval_micro_json.$$" >/dev/null 2>&1
   t=$(/venv/bin/python tools/translate_lifecycle.py --repo "$C" --out lean/AioMySensors/Generated/LifecycleBodies.lean --snapshot tools/snap_lifecycle.json | tail -1 | cut -c1-140)
   if (cd lean && lake build AioMySensors.Lemmas.LifecycleBodiesEq >/tmp/micro_lc.log 2>&1); then r="equalities hold"; else r="EQUALITY BROKEN: $(grep -m2 'error:' /tmp/micro_lc.log | tr '\n' ' ' | cut -c1-160)"; fi
   echo "$(basename "$d" .diff): $t -> $r"
